@@ -470,7 +470,7 @@ run_exp = Fn(S, 'run_exp', ret='r', pre_rewrites=RW + [Rw('run_command_line(', '
     hints={'fn-entry': 'RAW: let ghost mut g_all: Seq<CommandResult> = Seq::empty(); proof { note_entry(lg, pair_in, in_loop); }',
            'after-call:run_command_line_ev': 'g_all = g_all + _cr_list@;', 'after-call:run_exp_if': 'g_all = g_all + _cr_list@; note_if(lg, _cont, _brk);',
            'after-call:run_exp_for': 'g_all = g_all + _cr_list@;', 'after-call:run_exp_while': 'g_all = g_all + _cr_list@; note_ev(lg, Ev::While(lgw.node));',
-           'before-text-all:return (cr_list,': 'LABEL:C11+C15.run_exp.what_is_returned_holds_the_results_of_every_statement_run: assert(cr_list@ == g_all);',
+           'before-text-all:return (cr_list,': 'LABEL:C03+C11+C14+C15.run_exp.what_is_returned_holds_the_results_of_every_statement_run: assert(cr_list@ == g_all);',
            'loop-0-body-entry': 'note_start(lg);',
            'before-call:run_exp_while': 'RAW: let tracked mut lgw = new_log(); let tracked mut wlw = new_iflog();',
            'before-text:if stopped_by_error(sh, &cr_list) {': 'note_check(lg, stop_spec(cr_list@, *sh));'},
@@ -553,18 +553,21 @@ test_br = Fn(S, 'run_exp_test_br', rename='run_exp_test_br_real', ret='r',
               '&& (final(tl).body.len() == 1 ==> final(tl).body[0] == (pair_children(pair_br)[final(tl).visited - 1], in_loop, r.2, r.3)) '
               '&& (final(tl).body.len() == 0 ==> (!r.2 && !r.3))')],
     loops={0: Loop(invariant=[('C03+C15.inv.test_br.flag', 'test_pass == tl.pass && args@.len() >= 1'),
+                              ('C10+C14.inv.test_br.the_shell_is_as_the_last_test_left_it', '*sh == g_sh'),
                               ('C11+C15.inv.test_br.tests_first', 'tests_first(cr_list@, *tl) && cr_list@.len() == tl.outs.len()'),
                               ('C14.inv.test_br.visited', '__v0@ == pair_children(pair_br) && tl.visited == __i0 && tl.tests == tests_upto(__v0@, __i0 as int, args@) && no_body_before(__v0@, __i0 as int) && tl.body.len() == 0')]),
            1: Loop(invariant=[('C03+C15.inv.test_br.flag_while_the_results_are_kept', 'test_pass == tl.pass && args@.len() >= 1'),
+                              ('C10+C14.inv.test_br.the_shell_is_as_the_test_left_it_while_the_results_are_kept', '*sh == g_sh'),
                               ('C11+C15.inv.test_br.appending', 'cr_list@.len() == g_n + __i1 && tl.outs.len() == g_n + __v1@.len() && tl.outs.subrange(g_n as int, tl.outs.len() as int) == outs_of(__v1@) '
                                '&& forall|k: int| 0 <= k < cr_list@.len() ==> (#[trigger] cr_list@[k]).status == 0 && (cr_list@[k].stdout@, cr_list@[k].stderr@) == tl.outs[k]'),
                               ('C14.inv.test_br.visited_inner', '__v0@ == pair_children(pair_br) && tl.visited == __i0 && tl.tests == tests_upto(__v0@, __i0 as int, args@) && no_body_before(__v0@, __i0 as int) && tl.body.len() == 0 && __i0 >= 1 && is_head(pair_rule(__v0@[__i0 - 1]))')])},
-    hints={'after-call:run_command_line': 'note_test(tl, _cr_list@.len() > 0 && _cr_list@.last().status == 0); ;;; RAW: let ghost g_n = cr_list@.len(); proof { note_outs(tl, _cr_list@); }',
+    hints={'fn-entry': 'RAW: let ghost mut g_sh: Shell = *sh;',
+           'after-call:run_command_line': 'note_test(tl, _cr_list@.len() > 0 && _cr_list@.last().status == 0); ;;; RAW: let ghost g_n = cr_list@.len(); proof { note_outs(tl, _cr_list@); g_sh = *sh; }',
            'before-call:run_command_line': 'note_test_line(tl, line_new@);',
            'before-text-all:test_pass = true;': 'note_test(tl, true);',
            'loop-0-body-entry': 'note_visit(tl);',
            'loop-1-body-entry': 'assert(tl.outs.subrange(g_n as int, tl.outs.len() as int)[__i1 as int] == outs_of(__v1@)[__i1 as int]); assert(tl.outs[g_n + __i1] == (__v1@[__i1 as int].stdout@, __v1@[__i1 as int].stderr@));',
-           'before-call:run_exp': 'RAW: let tracked mut lg2 = new_log();',
+           'before-call:run_exp': 'RAW: let tracked mut lg2 = new_log(); ;;; LABEL:C10+C14.test_br.the_body_sees_the_status_and_the_shell_as_the_test_left_them: assert(*sh == g_sh);',
            'after-call:run_exp': 'note_body(tl, lg2.node, lg2.in_loop, _cont, _brk);'},
 )
 
